@@ -21,7 +21,7 @@ common.use_repo()
 
 import utils  # noqa: E402
 from utils import EventTime  # noqa: E402
-from workload import BranchPredictionPolicy, Placement, Placements, TaskState  # noqa: E402
+from workload import BatchStrategy, BranchPredictionPolicy, Placement, Placements, TaskState  # noqa: E402
 from schedulers import BaseScheduler, EDFScheduler, FIFOScheduler, LSFScheduler  # noqa: E402
 from data import WorkerLoader, WorkloadLoader  # noqa: E402
 import simulator as simmod  # noqa: E402
@@ -105,7 +105,7 @@ class RandomPolicy(BaseScheduler):
     """Arbitrary well-typed decisions (seeded): place now / in the future / on a pool
     that may not fit, leave unplaced, or cancel. Exercises every handler path."""
 
-    def __init__(self, rng, lookahead=0, retract=False, release_taskgraphs=False, cancel_prob=0.05, _flags=None):
+    def __init__(self, rng, lookahead=0, retract=False, release_taskgraphs=False, cancel_prob=0.05, batch_prob=0.0, _flags=None):
         super().__init__(
             preemptive=False,
             runtime=et(0),
@@ -116,6 +116,10 @@ class RandomPolicy(BaseScheduler):
         )
         self._rng = rng
         self._cancel_prob = cancel_prob
+        # batching (as the ILP / Clockwork policies do): tasks sharing an execution strategy object are put
+        # under one BatchStrategy, which is kept across invocations so that late members can join a batch
+        self._batch_prob = batch_prob
+        self._batches = {}
 
     def schedule(self, sim_time, workload, worker_pools):
         tasks = workload.get_schedulable_tasks(
@@ -142,9 +146,19 @@ class RandomPolicy(BaseScheduler):
             else:
                 strat = self._rng.choice(list(t.available_execution_strategies))
                 pool = self._rng.choice(pools)
+                if self._batch_prob and strat.batch_size > 1 and self._rng.random() < self._batch_prob:
+                    key = id(strat)
+                    if key not in self._batches or self._batches[key][3] >= strat.batch_size or self._rng.random() < 0.2:
+                        self._batches[key] = [BatchStrategy(execution_strategy=strat), pool, self._rng.choice(pool.workers).id, 0]
+                    self._batches[key][3] += 1  # never more members than the batch size: the worker refuses that
+                    strat, pool, batch_worker, _n = self._batches[key]
+                else:
+                    batch_worker = None
                 delay = self._rng.choice([0, 0, 0, 1, 3])
                 worker_id = None
-                if self._rng.random() < 0.3:
+                if batch_worker is not None and self._rng.random() < 0.8:
+                    worker_id = batch_worker
+                elif self._rng.random() < 0.3:
                     worker_id = self._rng.choice(pool.workers).id
                 out.append(
                     Placement.create_task_placement(
@@ -226,6 +240,7 @@ class Run:
                 retract=pol.get("retract", False),
                 release_taskgraphs=f["release_taskgraphs"],
                 cancel_prob=pol.get("cancel_prob", 0.05),
+                batch_prob=pol.get("batch_prob", 0.0),
                 _flags=self.flags,
             )
         else:
@@ -287,7 +302,7 @@ class Run:
         self._keep.append(st)
         return {
             "sid": sid,
-            "batch": False,
+            "batch": isinstance(st, BatchStrategy),
             "bs": st.batch_size,
             "rt": us(st.runtime),
             "req": [[r.name, rid_back(r.id), q] for r, q in st.resources._resource_vector.items()],
